@@ -213,7 +213,7 @@ func init() {
 	handlerRules["arp_spoofer"] = rules(`\bh\.closed\b`, "arp.closed", `huntList`, "arp.huntList", `closeChan`, "arp.closeChan")
 	handlerRules["icmp_spoofer"] = rules(`\bh\.closed\b`, "icmp6.closed", `huntList`, "icmp6.huntList", `closeChan`, "icmp6.closeChan",
 		`LANRouters`, "icmp6.LANRouters", `h\.Router\b`, "icmp6.Router", `\brepeat\b`, "icmp6.repeat",
-		`\brouter\.\w+\s*=|\bv\.(ManagedFlag|OtherCondigFlag|Addr|Prefixes|RDNSS|Options)\b|router\.Addr\b`, "icmp6.LANRouters")
+		`frame\.Options\(\)|\brouter\.\w+\s*=|\bv\.(ManagedFlag|OtherCondigFlag|Addr|Prefixes|RDNSS|Options)\b|router\.Addr\b`, "icmp6.LANRouters")
 	handlerRules["dhcp4_spoofer"] = rules(`\bh\.closed\b`, "dhcp4.closed", `\bh\.mode\b`, "dhcp4.mode", `\bh\.table\b|lease\.`, "dhcp4.table")
 	handlerRules["dns_naming"] = rules(`DNSTable`, "dns.table", `mdnsCache`, "dns.mdnsCache")
 	// the hunt list of Handler6 is a packet.AddrList: its methods live in package packet
